@@ -228,8 +228,10 @@ func c03Judge(it c03Item) (sig, detail string) {
 	if i := strings.LastIndex(v0, " | "); i >= 0 {
 		vOnly = v0[:i]
 	}
-	if strings.HasPrefix(v0, "ERR") || strings.HasPrefix(v0, "PANIC") || strings.HasPrefix(v0, "fn ") || strings.Contains(v0, "fn") {
-		return "", "" // the call itself fails, or returns a function (never equal to anything): not a candidate
+	if strings.HasPrefix(v0, "ERR") || strings.HasPrefix(v0, "PANIC") || strings.HasPrefix(v0, "fn ") || strings.Contains(v0, "fn") || strings.Contains(v0, "nil") {
+		// the call itself fails, returns a function (never equal to anything) or returns no value (nil, which the
+		// contexts cannot store or compare): not a candidate
+		return "", ""
 	}
 	ctx := c03Contexts(args)[it.Ctx]
 	stmts := append([]string{}, base...)
